@@ -149,6 +149,8 @@ def decimal_model(decl, payload):
         groups = integer_part.split(thou_sep)
     else:
         groups = [integer_part]
+    if len(groups) > 1 and any(g == "" for g in groups) and all(g == "" or (g.isdigit() and g.isascii()) for g in groups):
+        return None, None  # a thousands separator with nothing before or behind it ("1." / ".1" / "1..000"): malformed grouping, grey zone like wrong group sizes
     if any((not g.isdigit()) or (not g.isascii()) for g in groups):
         return False, None
     if len(groups) > 1 and (not (1 <= len(groups[0]) <= 3) or any(len(g) != 3 for g in groups[1:])):
@@ -160,7 +162,7 @@ def decimal_model(decl, payload):
         items = [(None if lo is None else decimal.Decimal(lo), None if hi is None else decimal.Decimal(hi)) for lo, hi, _ in rule["items"]]
         ok = intervals.accepts(items, value)
     else:
-        ok = -DEFAULT_DECIMAL_LIMIT <= value <= DEFAULT_DECIMAL_LIMIT
+        ok = value.copy_abs() <= DEFAULT_DECIMAL_LIMIT  # (unary minus would round the 31-digit limit to the 28 digits of the context)
     return ok, value
 
 
